@@ -292,6 +292,7 @@ func c04Units(tier string, seed int64) []Unit {
 			}
 		}
 	}})
+	units = append(units, c04HistoryUnit())
 	units = append(units, Unit{Name: "C04/example-determinism", Run: func(c *Ctx) {
 		n := 200
 		if !quick {
